@@ -68,6 +68,7 @@ def scenario(W, kind, comp, checked, lmax):
                 return "badlen", None
             I.check_vc(lnow == v, "stale", "set_length reported %d slots but the object's slot count is different" % v)
             l = v
+            I.store_cell(out, kind.off(W.P, kind.var[0]), 4, l)      # same value, now as a constant (just proved equal): keeps later offsets concrete
             marsh.attach_array(W, kind, out, l)
         ret = c_unmarshal(W, kind, out, buf, comp, checked)
         if ret is not None and not I.branch(ret):
@@ -199,7 +200,7 @@ def replay_align(res):
 
 
 def register(chk):
-    lmax = 4 if chk.tier == "quick" else 8
+    lmax = 8 if chk.tier == "quick" else 12
     for kind in KINDS + BLS_KINDS:
         for comp in marsh.forms(kind):
             for checked in ((1,) if kind.nocomp else (1, 0)):
